@@ -230,6 +230,12 @@ macro_rules! for_each_spec {
         go!(q, c07::CartHBB(2));
         go!(q, c07::KeyedHash(2, 2, true));
         go!(q, c07::KeyedBTree(2, 2));
+        // 3 keys (value domain: absent / bottom / {0}): needed for bugs that depend on which map is
+        // larger and on a missing key being iterated before a shared one
+        go!(q, c07::KeyedHH(3, 1));
+        go!(q, c07::KeyedHB(3, 1));
+        go!(q, c07::KeyedBH(3, 1));
+        go!(q, c07::KeyedBB(3, 1));
         go!(q, c07::PairSpec(2));
         go!(q, c07::PairSpec2(2));
         go!(q, c07::GhtCart(2, 2, false));
@@ -250,6 +256,8 @@ macro_rules! for_each_spec {
         go!(t, c07::KeyedHash(3, 3, false));
         go!(t, c07::KeyedBTree(3, 2));
         go!(t, c07::KeyedBTree(2, 3));
+        go!(t, c07::KeyedHB(3, 2));
+        go!(t, c07::KeyedBB(3, 2));
         go!(t, c07::PairSpec(3));
         go!(t, c07::PairSpec2(3));
         go!(t, c07::GhtCart(3, 2, false));
